@@ -271,9 +271,11 @@ class Lenient:
             self.op("§", spaced_ok=False)
             return o.w(s[1:])
         if cls in ("expr", "expr_pct") and not (in_single_item_list and "∧" in s) and bare_ok():
-            for tok in re.split("([" + OPS + "])", s):
+            for t_i, tok in enumerate(re.split("([" + OPS + "])", s)):
                 if tok and tok in OPS:
                     self.op(tok)
+                elif t_i > 0 and "∧" not in s and is_plain_word(tok) and self.take("quoted_operand", 0.25 * self.level):
+                    self.quoted(tok)  # optional quotes around a plain word apply to an operand (not the first) too
                 else:
                     o.w(tok)
             return
@@ -341,6 +343,9 @@ class Lenient:
     def holo(self, V):
         o = self.o
         o.w("[")
+        wrapped = self.take("holo_multiline", 0.3 * self.level)  # one-line versus multi-line applies to this bracket too
+        if wrapped:
+            o.w("\n" + " " * self.r.choice([1, 2, 4, 6]))
         ex = V["example"]
         if ex["v"] == "str":
             self.count_protected(ex["s"])
@@ -355,6 +360,8 @@ class Lenient:
             self.op("→", spaced_ok=False)
             self.op("§", spaced_ok=False)
             o.w(V["target"])
+        if wrapped:
+            o.w("\n" + " " * self.r.choice([0, 2, 4]))
         o.w("]")
 
     def value(self, V, ind: int, key=None, single=False):
